@@ -63,7 +63,7 @@ def _mechanism(k, names):
         s = k.syms.get(n)
         if s is None:
             continue
-        if n in inj:
+        if n in inj or (s.choice is not None and any(c is s.choice and ("<choice %d>" % i) in inj for i, c in enumerate(k.unique_choices))):
             return "injected-default"
         if s.choice is not None:
             c = s.choice
